@@ -543,8 +543,9 @@ Section Tables.
     | 0%N => 1 | 1%N => 60 | 2%N => 3600 | 3%N => 86400 | _ => 604800
     end.
 
-  (* string_wdhms_to_duration *)
-  Definition wdhms (s : list sym) : durres :=
+  (* string_wdhms_to_duration.  [sum_panics]: how the five TimeDelta values are added — with `+`
+     (panics on overflow: the code before the repair) or with checked_add (overflow = not parseable) *)
+  Definition wdhms_gen (sum_panics : bool) (s : list sym) : durres :=
     match s with
     | [] => DurNone
     | _ :: _ =>
@@ -562,10 +563,13 @@ Section Tables.
           if negb (forallb (fun v => v <=? DUR_MAX_SECS) secs) then DurNone   (* try_* None *)
           else
             let total := fold_left Z.add secs 0 in
-            if negb (total <=? DUR_MAX_SECS) then DurExit                   (* TimeDelta + overflow: panic *)
+            if negb (total <=? DUR_MAX_SECS)
+            then (if sum_panics then DurExit else DurNone)    (* `+` panicked; checked_add: None *)
             else DurOk (if neg then - total else total) at_
       end
     end.
+
+  Definition wdhms := wdhms_gen false.
 
   (* process_dt: None = could not be resolved (the caller exits) or the process exited *)
   Definition resolve (arg : list sym) (tz : Z) (other : option Z) (now_s : Z) : option Z :=
